@@ -91,6 +91,12 @@ func (this *RGBLuminanceSource) IsCropSupported() bool {
 }
 
 func (this *RGBLuminanceSource) Crop(left, top, width, height int) (LuminanceSource, error) {
+	if left < 0 || top < 0 || width < 0 || height < 0 {
+		return nil, errors.New("IllegalArgumentException: Crop rectangle must not have a negative origin or size")
+	}
+	if this.left+left+width > this.dataWidth || this.top+top+height > this.dataHeight {
+		return nil, errors.New("IllegalArgumentException: Crop rectangle does not fit within image data")
+	}
 	if left+width > this.dataWidth || top+height > this.dataHeight {
 		return nil, errors.New("IllegalArgumentException: Crop rectangle does not fit within image data")
 	}
